@@ -392,14 +392,19 @@ def slot_space(op, mode):
     return story_ks, tks, sks, nks
 
 
-def make_cells(pid, prop, tier, ops=None, N=3, mode=None, thin=None, extra=None, suffix=''):
+def make_cells(pid, prop, tier, ops=None, N=None, mode=None, thin=None, extra=None, suffix=''):
     from .cells import Cell, distinct, str_pre
     mode = mode or prop
     out = []
     T_ = 60 if tier == 'quick' else 600
+    if N is None:
+        N = 3 if tier == 'quick' else 4      # thorough: one more story / item, three-element source lists
     for op in (ops or OPS):
         level, has_t, has_src, has_new = OPS[op]
         story_ks, tks, sks, nks = slot_space(op, mode)
+        if tier == 'thorough' and sks != [None] and kind_of(op) not in ('Swap', 'Send') and op != 'roStoryMove':
+            sks = sks + [['existing', 'existing', 'existing'], ['existing', 'unknown', 'existing'],
+                         ['existing', 'existing', 'blank']]
         for story_k in story_ks:
             for tk in tks:
                 for sk in sks:
